@@ -4,7 +4,8 @@ From Coq Require Import ZArith QArith List Bool.
 From Centro Require Import Base.VecC13 Proofs.VecC13Proofs Model.MeasureC13 Proofs.MeasureC13Proofs Model.EllipseCoordsC13 Proofs.EllipseC13Proofs
   Proofs.PadC13Proofs Proofs.TranslateC13Proofs Proofs.EllipseRowsC13.
 From Centro Require Model.Circle Model.CircleVec Model.Feret Proofs.CircleVecProofs Proofs.CircleVecStep Model.MecFeretC13 Proofs.MecFeretC13Proofs
-  Spec.HullSpec Spec.MecSpec Spec.FeretSpec Spec.FeretBrute Proofs.OwnRowsC13 Proofs.PolygonDiscC13 Proofs.EndToEndC13 Proofs.MecVecOwnerC13 Proofs.MecVecInvC13 Proofs.MecVecSimC13 Proofs.HullBoundC13.
+  Spec.HullSpec Spec.MecSpec Spec.FeretSpec Spec.FeretBrute Proofs.OwnRowsC13 Proofs.PolygonDiscC13 Proofs.EndToEndC13 Proofs.MecVecOwnerC13 Proofs.MecVecInvC13 Proofs.MecVecSimC13 Proofs.HullBoundC13
+  Proofs.FeretProofs Spec.FeretLower Proofs.FeretMinC13 Proofs.FeretConeC13 Model.HullAreaVecC13 Proofs.HullAreaVecC13Proofs.
 From Centro Require Proofs.HullGuard Model.Hull Proofs.HullBatch Model.HullAreaC13 Proofs.HullAreaC13Proofs Model.MedianC18 Spec.SpecC18 Proofs.MedianC13Proofs Model.IndexesC18 Proofs.IndexesC18Proofs.
 Import ListNotations.
 Open Scope Z_scope.
@@ -512,3 +513,166 @@ Theorem C13_own_rows_of_label : forall ijv ijv' l,
   HullBatch.sel l ijv = HullBatch.sel l ijv' -> OwnRowsC13.own_rows ijv l = OwnRowsC13.own_rows ijv' l.
 Proof. exact HullBoundC13.own_rows_of_label. Qed.
 Print Assumptions C13_own_rows_of_label.
+
+(* ---- the minimum Feret diameter, semantically (Proofs/FeretMinC13.v), over Z with squared quantities ----
+   width_attained S wn wd: some strip contains S, is touched on both sides and has squared width wn / wd;
+   width_lower P S wn wd: no strip in a direction of P that contains S is narrower. *)
+
+(* Full: bf_min V - min over the edges of V of (largest squared vertex cross product) / (squared edge length) - is a
+   squared width that S itself attains (in a direction normal to an edge), and the smallest over all edge-flush
+   directions *)
+Theorem C13_feret_min_edge_flush : forall PS V,
+  HullSpec.HullSpec PS V -> (3 <= length V)%nat ->
+  exists bn bd, FeretBrute.bf_min V = Some (bn, bd) /\ 0 < bd /\
+    FeretMinC13.width_attained PS bn bd /\ FeretMinC13.width_lower (FeretMinC13.edge_direction V) PS bn bd.
+Proof. exact FeretMinC13.feret_min_edge_flush. Qed.
+Print Assumptions C13_feret_min_edge_flush.
+
+(* Full: edge by edge, edge_num / edge_den is the squared width of S in that edge's normal direction *)
+Theorem C13_feret_edge_strip : forall PS V, HullSpec.HullSpec PS V -> (3 <= length V)%nat ->
+  forall a, (a < length V)%nat ->
+  exists u lo hi, u <> (0, 0) /\
+    fst u * fst u + snd u * snd u = FeretBrute.edge_den V a /\
+    FeretProofs.Strip PS u lo hi /\
+    (exists p q, In p PS /\ In q PS /\ fst u * fst p + snd u * snd p = lo /\ fst u * fst q + snd u * snd q = hi) /\
+    (hi - lo) * (hi - lo) = FeretBrute.edge_num V a.
+Proof. exact FeretMinC13.edge_strip. Qed.
+Print Assumptions C13_feret_edge_strip.
+
+(* end to end, no per-run certificate: the minimum the sweep returns on the label's hull is (cross-multiplied) a squared
+   width attained by the label's own pixels in an edge-normal direction, minimal over all edge-flush directions *)
+Theorem C13_feret_min_end_to_end : forall ijv indexes r,
+  NoDup indexes -> (r < length indexes)%nat -> OwnRowsC13.nonneg_rows ijv ->
+  let l := nth r indexes 0 in
+  let S := HullSpec.pts_of ijv l in
+  let V := OwnRowsC13.own_hull ijv l in
+  (3 <= length V)%nat ->
+  exists mx mq bn bd,
+    nth r (MecFeretC13.feret_rows (fst (Hull.convex_hull_ijv ijv indexes))) (Feret.sweep []) = Some (mx, mq) /\
+    0 < snd mq /\ 0 < bd /\ fst mq * bd = bn * snd mq /\
+    FeretMinC13.width_attained S bn bd /\ FeretMinC13.width_lower (FeretMinC13.edge_direction V) S bn bd.
+Proof. exact EndToEndC13.feret_min_end_to_end. Qed.
+Print Assumptions C13_feret_min_end_to_end.
+
+(* every direction has an extreme pair of hull vertices; at an edge-flush direction in which a pair is extreme the
+   pair is at least sqrt(bf_min) apart *)
+Theorem C13_feret_extreme_pair_exists : forall PS V m, HullSpec.HullSpec PS V -> V <> [] ->
+  exists p q, In p V /\ In q V /\ FeretMinC13.extreme_pair PS p q m.
+Proof. exact FeretMinC13.extreme_pair_exists. Qed.
+Print Assumptions C13_feret_extreme_pair_exists.
+
+Theorem C13_feret_extreme_pair_wide : forall PS V p q m,
+  HullSpec.HullSpec PS V -> (3 <= length V)%nat -> FeretMinC13.edge_direction V m -> FeretMinC13.extreme_pair PS p q m ->
+  forall bn bd, FeretBrute.bf_min V = Some (bn, bd) ->
+  FeretLower.wide_enough (FeretLower.subv p q) m bn bd = true.
+Proof. exact FeretMinC13.extreme_pair_wide. Qed.
+Print Assumptions C13_feret_extreme_pair_wide.
+
+(* ALL directions, Full.  The planar cone lemma ("direction continuity"): for constraint vectors c1..c4, c1 and c2
+   independent, and u <> 0 with <c, u> >= 0, there are R, L - each a quarter turn of one of the constraints - inside the
+   cone {m : <c, m> >= 0 for all four} with u between them.  The four constraints are the edges at the two vertices of
+   an extreme pair, so R and L are edge-flush directions in which the same pair is still extreme. *)
+Theorem C13_feret_cone_span : forall c1 c2 c3 c4 u : FeretLower.vec,
+  FeretLower.crossv c1 c2 <> 0 -> u <> (0, 0) ->
+  0 <= FeretLower.dotv c1 u -> 0 <= FeretLower.dotv c2 u -> 0 <= FeretLower.dotv c3 u -> 0 <= FeretLower.dotv c4 u ->
+  let cs := [c1; c2; c3; c4] in
+  exists ci ck, In ci cs /\ In ck cs /\
+    let R := FeretConeC13.negv (FeretConeC13.Jv ci) in let L := FeretConeC13.Jv ck in
+    (forall c, In c cs -> 0 <= FeretLower.dotv c R) /\ (forall c, In c cs -> 0 <= FeretLower.dotv c L) /\
+    0 <= FeretLower.crossv R u /\ FeretLower.crossv L u <= 0 /\ 0 <= FeretLower.crossv R L.
+Proof. exact FeretConeC13.cone_span. Qed.
+Print Assumptions C13_feret_cone_span.
+
+(* every direction u is covered: either it lies in a proper cone of two edge-flush directions sharing one extreme
+   pair at least sqrt(bf_min) apart in both, or it is parallel to one such edge-flush direction *)
+Theorem C13_feret_cone_cover_hull : forall PS V bn bd,
+  HullSpec.HullSpec PS V -> (3 <= length V)%nat -> FeretBrute.bf_min V = Some (bn, bd) ->
+  FeretConeC13.ConeCover2 PS bn bd.
+Proof. exact FeretConeC13.cone_cover_hull. Qed.
+Print Assumptions C13_feret_cone_cover_hull.
+
+(* THE semantic statement of the minimum Feret diameter: bf_min V = min over hull edges of (max over vertices of
+   cross^2) / |edge|^2 is attained by S as a squared width, and NO strip containing S - in any direction u <> 0 - is
+   narrower: bn/bd = min over all directions of (max_s <u,s> - min_s <u,s>)^2 / |u|^2.  Exact integers, no square root. *)
+Theorem C13_feret_min_all_directions : forall PS V,
+  HullSpec.HullSpec PS V -> (3 <= length V)%nat ->
+  exists bn bd, FeretBrute.bf_min V = Some (bn, bd) /\ 0 < bd /\
+    FeretMinC13.width_attained PS bn bd /\ FeretMinC13.width_lower (fun u => u <> (0, 0)) PS bn bd.
+Proof. exact FeretConeC13.feret_min_all_directions. Qed.
+Print Assumptions C13_feret_min_all_directions.
+
+(* end to end over all directions, no per-run certificate: the minimum the calipers sweep returns on the rows
+   convex_hull_ijv emits for the requested label is the minimum width of that label's own pixel set *)
+Theorem C13_feret_min_end_to_end_all : forall ijv indexes r,
+  NoDup indexes -> (r < length indexes)%nat -> OwnRowsC13.nonneg_rows ijv ->
+  let l := nth r indexes 0 in
+  let S := HullSpec.pts_of ijv l in
+  let V := OwnRowsC13.own_hull ijv l in
+  (3 <= length V)%nat ->
+  exists mx mq bn bd,
+    nth r (MecFeretC13.feret_rows (fst (Hull.convex_hull_ijv ijv indexes))) (Feret.sweep []) = Some (mx, mq) /\
+    0 < snd mq /\ 0 < bd /\ fst mq * bd = bn * snd mq /\
+    FeretMinC13.width_attained S bn bd /\ FeretMinC13.width_lower (fun u => u <> (0, 0)) S bn bd.
+Proof. exact EndToEndC13.feret_min_end_to_end_all. Qed.
+Print Assumptions C13_feret_min_end_to_end_all.
+
+(* the remaining non-empty hulls (one or two vertices: single pixels, pixel lines): the sweep returns 0/1 and the pixel
+   set has width 0 (it lies on one line) *)
+Theorem C13_feret_min_end_to_end_degenerate : forall ijv indexes r,
+  NoDup indexes -> (r < length indexes)%nat -> OwnRowsC13.nonneg_rows ijv ->
+  let l := nth r indexes 0 in
+  let S := HullSpec.pts_of ijv l in
+  let V := OwnRowsC13.own_hull ijv l in
+  (1 <= length V <= 2)%nat ->
+  exists mx,
+    nth r (MecFeretC13.feret_rows (fst (Hull.convex_hull_ijv ijv indexes))) (Feret.sweep []) = Some (mx, (0, 1)) /\
+    FeretMinC13.width_attained S 0 1 /\ FeretMinC13.width_lower (fun u => u <> (0, 0)) S 0 1.
+Proof. exact EndToEndC13.feret_min_end_to_end_degenerate. Qed.
+Print Assumptions C13_feret_min_end_to_end_degenerate.
+
+(* ---- calculate_convex_hull_areas AS WRITTEN (Model/HullAreaVecC13.v): global hull rows, counts, index_of_label
+   tables, cumulative offsets, compaction to the non-degenerate labels, per-row gathers, within_label_index, the modulo
+   wrap of plus_one_idx, scind.sum by label ---- *)
+
+(* Full: whenever the function does not raise, every requested label gets the per-object value of its own hull
+   vertices - whatever the other labels, their hulls, their number and the order / numbering of the request list *)
+Theorem C13_hull_areas_vec_correct : forall indexes blocks r,
+  NoDup indexes -> (forall j, In j indexes -> 0 <= j) -> length indexes = length blocks ->
+  HullAreaVecC13.hull_areas_vec indexes blocks = Some r -> r = map HullAreaC13.hull_area_obj blocks.
+Proof. exact HullAreaVecC13Proofs.hull_areas_vec_correct. Qed.
+Print Assumptions C13_hull_areas_vec_correct.
+
+(* it raises (IndexError of index_of_label[indexes] = ...) only for a requested label above the largest hull label *)
+Theorem C13_hull_areas_vec_defined : forall indexes blocks,
+  (forall j, In j indexes -> j <= maxl (map fst (CircleVec.hull_rows indexes blocks))) ->
+  HullAreaVecC13.hull_areas_vec indexes blocks <> None.
+Proof. exact HullAreaVecC13Proofs.hull_areas_vec_defined. Qed.
+Print Assumptions C13_hull_areas_vec_defined.
+
+Theorem C13_hull_areas_vec_independent : forall indexes blocks indexes' blocks' r r' k k' b,
+  NoDup indexes -> NoDup indexes' -> (forall j, In j indexes -> 0 <= j) -> (forall j, In j indexes' -> 0 <= j) ->
+  length indexes = length blocks -> length indexes' = length blocks' ->
+  HullAreaVecC13.hull_areas_vec indexes blocks = Some r -> HullAreaVecC13.hull_areas_vec indexes' blocks' = Some r' ->
+  nth_error blocks k = Some b -> nth_error blocks' k' = Some b ->
+  nth_error r k = nth_error r' k'.
+Proof. exact HullAreaVecC13Proofs.hull_areas_vec_independent. Qed.
+Print Assumptions C13_hull_areas_vec_independent.
+
+(* the compaction step as written, hull[counts_per_label[hull[:, 0]] >= 3], is the concatenation of the
+   non-degenerate labels' rows (the form the model's non-degenerate stage works on) *)
+Theorem C13_hull_areas_compaction : forall indexes blocks,
+  NoDup indexes -> (forall j, In j indexes -> 0 <= j < maxl (map fst (CircleVec.hull_rows indexes blocks)) + 1) ->
+  length indexes = length blocks ->
+  let nd := filter (fun lb : Z * list (Z * Z) => 3 <=? CircleVec.zlenv (snd lb)) (combine indexes blocks) in
+  HullAreaVecC13.hull_nd_as_written indexes blocks = CircleVec.hull_rows (map fst nd) (map snd nd).
+Proof. exact HullAreaVecC13Proofs.compaction. Qed.
+Print Assumptions C13_hull_areas_compaction.
+
+(* on the rows of C02's convex_hull_ijv the as-written model equals the per-object batch, hence C13_hull_area_own_rows /
+   _independent / _request_position hold for it *)
+Theorem C13_hull_areas_vec_end_to_end : forall ijv indexes res,
+  NoDup indexes -> (forall j, In j indexes -> 0 <= j) -> OwnRowsC13.nonneg_rows ijv ->
+  HullAreaVecC13.hull_areas_vec (map fst (fst (Hull.convex_hull_ijv ijv indexes))) (map snd (fst (Hull.convex_hull_ijv ijv indexes))) = Some res ->
+  res = HullAreaC13.hull_areas_rows (fst (Hull.convex_hull_ijv ijv indexes)).
+Proof. exact EndToEndC13.hull_areas_vec_end_to_end. Qed.
+Print Assumptions C13_hull_areas_vec_end_to_end.
